@@ -3,6 +3,7 @@ package checks
 import (
 	"encoding/json"
 	"fmt"
+	"strings"
 	"sync"
 	"sync/atomic"
 	"time"
@@ -230,8 +231,20 @@ func c09Random(c *h.Ctx) {
 		for j := r.Intn(4); j > 0; j-- {
 			pos := r.Intn(len(order) + 1)
 			x := "stranger"
-			if r.Intn(2) == 0 {
+			switch r.Intn(6) {
+			case 0, 1, 2:
 				x = order[r.Intn(len(order))]
+			case 3:
+				// (round 7) an id that merely looks like a participant's: letter case, blank, prefix
+				id := ids[r.Intn(len(ids))]
+				x = []string{strings.ToUpper(id), id + " ", id[:len(id)-1] + "x", ""}[r.Intn(4)]
+				c.Feature("unknown-id:look-alike")
+			case 4:
+				// (round 7) a participant of the previous set-up of this gate is unknown to this one
+				if k > 0 {
+					x = fmt.Sprintf("g%d_%d", k-1, r.Intn(5))
+					c.Feature("unknown-id:participant-of-the-previous-set-up")
+				}
 			}
 			order = append(append(append([]string{}, order[:pos]...), x), order[pos:]...)
 		}
